@@ -46,6 +46,8 @@ const natRouterIP = "1.2.3.4"
 var natEndpoints = map[string]string{
 	"A1": "10.0.0.1:5001", "A2": "10.0.0.1:5002", "B1": "10.0.0.2:5001",
 	"X1": "5.5.5.5:80", "X2": "5.5.5.5:81", "Y1": "6.6.6.6:80", "Z9": "7.7.7.7:99",
+	// never contacted, but textually an extension of a contacted remote (keys are compared as strings)
+	"XP": "5.5.5.5:800", "XQ": "5.5.5.50:80",
 	// 1:1 mode
 	"L0a": "10.0.0.1:5001", "L0b": "10.0.0.1:5002", "L1a": "10.0.0.2:5001", "L2a": "10.0.0.3:5001", "Ua": "10.0.0.99:5001",
 	"M0a": "1.2.3.10:5001", "M0c": "1.2.3.10:7777", "M1a": "1.2.3.11:5001", "M2a": "1.2.3.12:5001", "MUa": "1.2.3.99:5001",
@@ -120,7 +122,11 @@ func (s *natSys) Ops() []string {
 	var out []string
 	for _, op := range s.alpha {
 		f := strings.Fields(op)
-		if f[0] == "I" && strings.HasPrefix(f[2], "E") && f[2] != "EN" {
+		if f[0] == "I" && f[2] == "EL" {
+			if len(s.exts) == 0 {
+				continue
+			}
+		} else if f[0] == "I" && strings.HasPrefix(f[2], "E") && f[2] != "EN" {
 			k, _ := strconv.Atoi(f[2][1:])
 			if k >= len(s.exts) {
 				continue
@@ -265,6 +271,8 @@ func (s *natSys) Apply(op string) (obs, sig, msg string) {
 		src := natEP(f[1])
 		var dst string
 		switch {
+		case f[2] == "EL":
+			dst = s.exts[len(s.exts)-1]
 		case f[2] == "EN":
 			dst = natRouterIP + ":40000"
 		case strings.HasPrefix(f[2], "E"):
@@ -309,6 +317,9 @@ func (s *natSys) Apply(op string) (obs, sig, msg string) {
 			return obs, "", ""
 		}
 		if !fwd && want {
+			if c02 && err != nil && strings.Contains(err.Error(), "no NAT binding") {
+				return obs, "C02 live-mapping-lost", fmt.Sprintf("%v: %s still holds the live mapping %s (last outbound %v ago) but inbound traffic to it finds no binding", s.cfg, m.internal, dst, now-m.last)
+			}
 			if !c02 {
 				return obs, "C03 refused-permitted", fmt.Sprintf("%v: inbound %s -> %s refused (%v) although %s created %s and sent to a matching remote", s.cfg, src, dst, err, m.internal, dst)
 			}
@@ -419,7 +430,10 @@ func natAlphabet(cfg natCfg) []string {
 		}
 	}
 	for _, e := range []string{"E0", "E1", "E2", "EN"} {
-		for _, r := range []string{"X1", "X2", "Y1", "Z9"} {
+		for _, r := range []string{"X1", "X2", "Y1", "Z9", "XP", "XQ"} {
+			if (r == "XP" || r == "XQ") && e == "E2" {
+				continue
+			}
 			a = append(a, "I "+r+" "+e)
 		}
 	}
@@ -477,7 +491,11 @@ func runNATBody(mode, tier string, shard, shards int, rep *SeqReport, lastOp, cu
 			natCfg{mapping: vnet.EndpointIndependent, filtering: vnet.EndpointAddrPortDependent, lifetime: 100 * time.Millisecond})
 	}
 	for _, cfg := range deepCfgs {
-		for _, n := range []int{16382, 16383, 16384} {
+		ns := []int{16383, 16384}
+		if thorough {
+			ns = []int{16382, 16383, 16384}
+		}
+		for _, n := range ns {
 			for _, expired := range []bool{false, true} {
 				if !mine() {
 					continue
@@ -490,10 +508,12 @@ func runNATBody(mode, tier string, shard, shards int, rep *SeqReport, lastOp, cu
 				if expired {
 					prefix = append(prefix, "T full")
 				}
-				alpha := []string{"O A1 X1", "O A2 X1", "O B1 Y1", "I X1 E0", "I X1 E1", "I Z9 E0", "T full"}
-				d := 2
+				// P0 = the endpoint that created the very first mapping of the bulk prefix sends again;
+				// EL = the external endpoint seen last
+				alpha := []string{"O A1 X1", "O P0 X1", "I X1 E0", "I X1 EL", "T full"}
+				d := 3
 				if thorough {
-					d = 3
+					alpha = append(alpha, "O A2 X1", "O B1 Y1", "I Z9 E0", "O P1 X1")
 				}
 				*curFam = fmt.Sprintf("deep %s n=%d expired=%v", cfg, n, expired)
 				r := bfs(fmt.Sprintf("nat-deep %s n=%d expired=%v", cfg, n, expired), func() seqSystem { return newNatSys(mode, cfg, alpha, lastOp) }, prefix, d, 3000, rep)
